@@ -7,7 +7,7 @@ LEVEL = "exploration"
 RULE = ("cases = all pattern families incl. not-strong-Hall, zero diagonals, dense rows/columns, duplicated structure x adversarial value "
         "magnitudes (2^±20, so that every run takes a different pivot sequence) x static/dynamic supernode storage x small maxsuper, "
         "panel >= n, relax up to 6 x fill estimates sp_ienv(6..8) from tiny absolute values to generous factors x s/d/c/z x nprocs x "
-        "schedules; oracle = no ASan/UBSan report in the forked child, slot-bound monitor (every LUSUP allocation ends inside the slot "
+        "schedules, plus refactorization histories (first / refactor with new pivots / solve) under tight U and L-subscript estimates; oracle = no ASan/UBSan report in the forked child, slot-bound monitor (every LUSUP allocation ends inside the slot "
         "reserved by ?PresetMap / below nzlumax), pairwise-disjoint nzval/rowind/U extents, reconstruction bound, and the only admissible "
         "abnormal end is the library's diagnosed exit when an estimate was made tight. non-trivial = some supernode fills its slot exactly, "
         "or a diagnosed overflow occurred, or dynamic storage with >=2 threads allocating; distinct = case text")
@@ -45,18 +45,40 @@ def c05_case(draw, nmax=40, nmin=1):
     return case
 
 
+@st.composite
+def c05_history(draw, nmax=30, maxlen=5):
+    """refactorization histories under a tight L-subscript / U estimate: the capacities remembered from the first factorization
+    must keep bounding the later ones (diagnosed stop, never an out-of-bounds write)"""
+    from props.hist import hist_case
+    case = draw(hist_case(nmax=nmax, maxlen=maxlen))
+    s = case["set"]; n = s["n"]; nnz = len(case["entries"])
+    small = st.sampled_from([2 * n, nnz, nnz + n, nnz + 2 * n, 2 * nnz, 3 * nnz])
+    which = draw(st.sampled_from(["L", "L", "U", "LU"]))
+    if "L" in which: s["fill8"] = draw(small)
+    if "U" in which: s["fill7"] = draw(small)
+    s["tight_fill"] = 1; s["prop"] = "C08"; s["via"] = "history"; s.setdefault("u", 1.0); s.setdefault("P", 1)
+    case["ops"] = [o.replace("trans=C", "trans=T") for o in case["ops"]]     # conjugate-transpose solves are C07's subject (listed finding D3c)
+    case["fillmode"] = "history_tight" + which
+    return case
+
+
 def strategy(tier):
     if tier == "quick":
-        return c05_case()
-    return st.one_of(c05_case(nmax=60), c05_case(nmin=40, nmax=200))
+        return st.one_of(c05_case(), c05_case(), c05_case(), c05_history())
+    return st.one_of(c05_case(nmax=60), c05_case(nmax=60), c05_case(nmin=40, nmax=200), c05_history(nmax=60, maxlen=10))
 
 
 def nontrivial(case, v):
     f = v.get("f", {})
+    if case["set"].get("via") == "history":
+        return f.get("refacts", 0) > 0 or f.get("libexit", 0) == 1
     return f.get("tight_slots", 0) > 0 or f.get("libexit", 0) == 1 or (case["set"].get("dynsnode") and f.get("thr_panels", 0) >= 2 and f.get("dyn_setmaps", 0) >= 2)
 
 
 def classify(case, v):
+    if case["set"].get("via") == "history":
+        from props.hist import hist_classes
+        return ["via=history", "fill=" + case.get("fillmode", "?")] + hist_classes(case, v) + (["diagnosed_exit"] if v.get("v") == "libexit" else [])
     labs = std_classes(case, v); f = v.get("f", {})
     labs.append("fill=" + case.get("fillmode", "?")); labs.append("dynsnode=%d" % case["set"].get("dynsnode", 0))
     if f.get("libexit", 0): labs.append("diagnosed_exit")
